@@ -37,13 +37,34 @@ theorem charPos_line_mono (src : String) (p q : Nat) (h : p ≤ q) : (charPos sr
   have := List.Sublist.length_le (hsub.filter (· == 10))
   omega
 
-/-- the column never exceeds the number of bytes before the position -/
-theorem charPos_col_bounded (src : String) (pos : Nat) : (charPos src pos).2 ≤ pos - 1 := by
+theorem units_append (a b : List UInt8) : units (a ++ b) = units a + units b := by
+  simp [units, List.filter_append]; omega
+
+theorem units_le (bs : List UInt8) : units bs ≤ 2 * bs.length := by
+  have h1 := List.length_filter_le (fun b => !isContinuation b) bs
+  have h2 := List.length_filter_le isLead4 bs
+  unfold units; omega
+
+/-- the column never exceeds twice the number of bytes before the position (a 4-byte character is two units) -/
+theorem charPos_col_bounded (src : String) (pos : Nat) : (charPos src pos).2 ≤ 2 * (pos - 1) := by
   unfold charPos
   simp only []
-  calc _ ≤ ((src.toUTF8.toList.take (pos - 1)).reverse.takeWhile (· != 10)).length := List.length_filter_le _ _
-    _ ≤ (src.toUTF8.toList.take (pos - 1)).reverse.length := List.Sublist.length_le (List.takeWhile_sublist _)
-    _ ≤ pos - 1 := by simp [List.length_take]; omega
+  calc _ ≤ 2 * ((src.toUTF8.toList.take (pos - 1)).reverse.takeWhile (· != 10)).length := units_le _
+    _ ≤ 2 * (src.toUTF8.toList.take (pos - 1)).reverse.length :=
+        Nat.mul_le_mul_left 2 (List.Sublist.length_le (List.takeWhile_sublist _))
+    _ ≤ 2 * (pos - 1) := by simp [List.length_take]; omega
+
+/-- **the column lies within its line**: for EVERY file and position, the column is at most the width, in UTF-16 units, of the
+line the position is on (the bytes from the last newline before the position to the next newline after it) -/
+theorem charPos_col_in_line (src : String) (pos : Nat) :
+    (charPos src pos).2 ≤ units (((src.toUTF8.toList.take (pos - 1)).reverse.takeWhile (· != 10)).reverse ++
+      (src.toUTF8.toList.drop (pos - 1)).takeWhile (· != 10)) := by
+  unfold charPos
+  simp only [units_append]
+  have : units ((src.toUTF8.toList.take (pos - 1)).reverse.takeWhile (· != 10)).reverse =
+      units ((src.toUTF8.toList.take (pos - 1)).reverse.takeWhile (· != 10)) := by
+    simp [units, List.filter_reverse]
+  omega
 
 /-- the compiler model never crashes: on every program it returns code, a diagnostic class, or reports its own fuel
 exhaustion (it has no panic outcome) -/
@@ -62,7 +83,8 @@ theorem modelled_errors_are_diagnostics :
     (match compile ⟨[.alias "A" [] (.kw "string")], [("X", .ref "A" [.kw "number"])]⟩ with | .diags _ => true | _ => false) = true := by
   decide +kernel
 
-/-- location witnesses (multi-byte characters count as one column) -/
+/-- location witnesses (a character of the basic plane counts as one column, an emoji as two) -/
+example : spanToLoc "/* 😀 */ type A = Ghost;" 21 26 = ((1, 18), (1, 23)) := by decide +kernel
 example : spanToLoc "type A = é;\ntype B = 1;" 14 18 = ((2, 0), (2, 4)) := by decide +kernel
 example : spanToLoc "ab\ncd" 0 0 = ((1, 0), (2, 2)) := by decide +kernel
 
